@@ -11,18 +11,26 @@ open Ldk Ldk.ChainSync
 
 /-! ## the hypothesis is satisfiable: a concrete forked tree (1 ← 2 ← 3 and 1 ← 4 ← 5 ← 6) -/
 
+/-- header `hash ← parent` at `height` with cumulative work `work`, every block of work 2 at bits 7 -/
+def hd (hash parent height work : Nat) : Hdr := ⟨hash, parent, height, work, 7, 2⟩
 def exTree : Tree :=
-  [⟨1, 0, 0, 2⟩, ⟨2, 1, 1, 4⟩, ⟨3, 2, 2, 6⟩, ⟨4, 1, 1, 4⟩, ⟨5, 4, 2, 6⟩, ⟨6, 5, 3, 8⟩]
+  [hd 1 0 0 2, hd 2 1 1 4, hd 3 2 2 6, hd 4 1 1 4, hd 5 4 2 6, hd 6 5 3 8]
+/-- index of a request within its operation -/
+def Req.idx : Req → Nat
+  | .best k => k
+  | .header k _ => k
+  | .block k _ => k
 def exSrc (best : Nat) (failing : List Nat) : Source :=
-  { tree := exTree, best := best, fails := fun k => failing.contains k, hidden := fun _ => false }
-def b1 : Hdr := ⟨1, 0, 0, 2⟩
-def b3 : Hdr := ⟨3, 2, 2, 6⟩
-def b5 : Hdr := ⟨5, 4, 2, 6⟩
-def b6 : Hdr := ⟨6, 5, 3, 8⟩
+  { tree := exTree, best := best, fails := fun r => failing.contains (Req.idx r), hidden := fun _ => false }
+def b1 : Hdr := hd 1 0 0 2
+def b3 : Hdr := hd 3 2 2 6
+def b4 : Hdr := hd 4 1 1 4
+def b5 : Hdr := hd 5 4 2 6
+def b6 : Hdr := hd 6 5 3 8
 
 example : wfTree exTree = true ∧ oneGenesis exTree = true := by decide
-example : InTree exTree b3 ∧ InTree exTree b6 ∧ anc exTree b6 = [b6, b5, ⟨4, 1, 1, 4⟩, b1] := by decide
-example : (exSrc 6 []).Healthy := ⟨fun _ => rfl, fun _ => rfl⟩
+example : InTree exTree b3 ∧ InTree exTree b6 ∧ anc exTree b6 = [b6, b5, b4, b1] := by decide
+example : (exSrc 6 []).Healthy := ⟨fun _ => rfl, fun _ => rfl, fun h => by cases h⟩
 
 /-! ## find_difference returns the lowest common ancestor and the path above it -/
 
@@ -46,7 +54,7 @@ theorem find_difference_lca (s : Source) (c : Cache) (cur prev : Hdr) (req : Nat
   rw [hL.path] at hs
   exact List.pairwise_reverse.mpr (List.pairwise_append.mp hs).1
 
-example : (findDiff (exSrc 6 []) [] b6 b3 0).toOption.map (·.1) = some ⟨b1, [b6, b5, ⟨4, 1, 1, 4⟩]⟩ := by decide
+example : (findDiff (exSrc 6 []) [] b6 b3 0).toOption.map (·.1) = some ⟨b1, [b6, b5, b4]⟩ := by decide
 
 /-- With a source that answers, the walk always finds the difference (the theorem above is not
     vacuous, and fuel `height + height + 1` is enough). -/
@@ -57,7 +65,7 @@ theorem find_difference_complete (s : Source) (c : Cache) (cur prev : Hdr) (req 
   findDiff_complete hw hg hs hc req hcur hprev
 
 example : ∃ d r, findDiff (exSrc 6 []) [b5] b6 b3 7 = .ok (d, r) :=
-  find_difference_complete _ _ _ _ _ (by decide) (by decide) ⟨fun _ => rfl, fun _ => rfl⟩
+  find_difference_complete _ _ _ _ _ (by decide) (by decide) ⟨fun _ => rfl, fun _ => rfl, fun h => by cases h⟩
     (by intro x hx; simp at hx; subst hx; decide) (by decide) (by decide)
 
 /-! ## the notifications always describe one chain of the tree -/
@@ -135,7 +143,7 @@ example : applyNotifs exTree (anc exTree b3) (pollBestTip (exSrc 6 []) ⟨b3, []
 -- two polls, the first one interrupted after one block (request 8 = the fetch of block 5 fails)
 example : (runPolls ⟨b3, []⟩ [exSrc 6 [8], exSrc 6 []]).2
     = [.disconnected 1 0, .connected 4 1, .connected 5 2, .connected 6 3] ∧
-    (runPolls ⟨b3, []⟩ [exSrc 6 [8]]).1.tip = ⟨4, 1, 1, 4⟩ := by decide
+    (runPolls ⟨b3, []⟩ [exSrc 6 [8]]).1.tip = b4 := by decide
 
 /-! ## the tip only improves; Worse / Common leave everything untouched -/
 
@@ -275,7 +283,7 @@ theorem cache_miss_safe_poll (s : Source) (tip : Hdr) (c1 c2 : Cache)
         beq_self_eq_true, if_true]
       simp
 
-example : (pollBestTip (exSrc 6 []) ⟨b3, [b1, ⟨2, 1, 1, 4⟩]⟩).notifs = (pollBestTip (exSrc 6 []) ⟨b3, []⟩).notifs := by
+example : (pollBestTip (exSrc 6 []) ⟨b3, [b1, hd 2 1 1 4]⟩).notifs = (pollBestTip (exSrc 6 []) ⟨b3, []⟩).notifs := by
   decide
 
 /-! ## a source failure keeps exactly the delivered prefix -/
@@ -314,7 +322,7 @@ theorem error_keeps_prefix (s : Source) (c : Cache) (req : Nat) (new old : Hdr) 
   have htip : syncTip (synchronizeListener s c req new old).res new old
       = lastOr d.common (d.connected.reverse.take (fetchPrefix s req1 d.connected.reverse)) := by
     unfold synchronizeListener
-    simp only [hfd]
+    simp only [hfd, syncDisconnects]
     by_cases hok : fetchPrefix s req1 d.connected.reverse = d.connected.reverse.length
     · have hc1 : CacheOk s.tree (if decide (d.common ≠ old) = true then cacheBlocksDisconnected c false d.common else c) := by
         split
@@ -327,7 +335,7 @@ theorem error_keeps_prefix (s : Source) (c : Cache) (req : Nat) (new old : Hdr) 
       simp only [hpre, this, Bool.false_eq_true, if_false, syncTip]
   refine ⟨?_, ?_, ?_, ?_, ?_⟩
   · unfold synchronizeListener
-    simp only [hfd, hpre]
+    simp only [hfd, hpre, syncDisconnects]
     by_cases hd : d.common = old <;> simp [hd]
   · intro hlt
     unfold synchronizeListener
@@ -345,7 +353,7 @@ theorem error_keeps_prefix (s : Source) (c : Cache) (req : Nat) (new old : Hdr) 
   · rw [hupd, htip]
   · rw [← htip]; exact hsync.1
 
-example : (synchronizeListener (exSrc 6 [8]) [] 2 b6 b3).res = .errAt ⟨4, 1, 1, 4⟩ ∧
+example : (synchronizeListener (exSrc 6 [8]) [] 2 b6 b3).res = .errAt b4 ∧
     (synchronizeListener (exSrc 6 [8]) [] 2 b6 b3).notifs = [.disconnected 1 0, .connected 4 1] := by decide
 
 /-- … and nothing is skipped or repeated on the next poll: if the source then answers (same tree, same
@@ -371,11 +379,11 @@ theorem error_then_resume (s s2 : Source) (c : Cache) (req : Nat) (new old : Hdr
     (d.connected.reverse.drop (fetchPrefix s req1 d.connected.reverse))
     (by rw [List.take_append_drop]; simp [hL.path])
   rw [← htip] at k1
-  rcases s2 with ⟨tree2, best2, fails2, hidden2⟩
+  rcases s2 with ⟨tree2, best2, fails2, hidden2, bitcoin2⟩
   simp only at ht2 hb2
   subst ht2 hb2
   have hf0 : ∀ k, fails2 k = false := hs2.1
-  have hh0 : ∀ h, hidden2 h = false := hs2.2
+  have hh0 : ∀ h, hidden2 h = false := hs2.2.1
   have hnew : hdrOf s.tree new.hash = some new := hn
   rcases Nat.lt_or_ge (fetchPrefix s req1 d.connected.reverse) d.connected.reverse.length with hlt | hge
   · -- interrupted: the remaining blocks are delivered
@@ -389,11 +397,12 @@ theorem error_then_resume (s s2 : Source) (c : Cache) (req : Nat) (new old : Hdr
       | true =>
         have : new = cl'.tip := inTree_hash_inj hn u2 (by simpa using hq)
         rw [← this] at hwk; omega
-    have hpoll : pollChainTip ⟨s.tree, new.hash, fails2, hidden2⟩ 0 cl'.tip = .ok (.better new, 2) := by
-      simp [pollChainTip, Source.getBestBlock, Source.getHeader, hf0, hh0, hhash, hnew, hwk]
-    have hs2' : (Source.mk s.tree new.hash fails2 hidden2).Healthy := hs2
-    obtain ⟨d2, q, e2⟩ := findDiff_complete (s := ⟨s.tree, new.hash, fails2, hidden2⟩) hw hg hs2' u3 2 hn u2
-    have hL2 := findDiff_spec (s := ⟨s.tree, new.hash, fails2, hidden2⟩) hw u3 hn u2 e2
+    have hpoll : pollChainTip ⟨s.tree, new.hash, fails2, hidden2, bitcoin2⟩ 0 cl'.tip = .ok (.better new, 2) := by
+      have hhash' : ¬ new.hash = cl'.tip.hash := by simpa using hhash
+      simp [pollChainTip, Source.getBestBlock, Source.getHeader, hf0, hh0, hhash', hnew, hwk, tipIsCommon, tipIsBetter]
+    have hs2' : (Source.mk s.tree new.hash fails2 hidden2 bitcoin2).Healthy := hs2
+    obtain ⟨d2, q, e2⟩ := findDiff_complete (s := ⟨s.tree, new.hash, fails2, hidden2, bitcoin2⟩) hw hg hs2' u3 2 hn u2
+    have hL2 := findDiff_spec (s := ⟨s.tree, new.hash, fails2, hidden2, bitcoin2⟩) hw u3 hn u2 e2
     have hcand : IsLca s.tree new cl'.tip
         ⟨cl'.tip, (d.connected.reverse.drop (fetchPrefix s req1 d.connected.reverse)).reverse⟩ :=
       ⟨k1, mem_anc_self _ _, fun x _ hx => hx⟩
@@ -404,11 +413,11 @@ theorem error_then_resume (s s2 : Source) (c : Cache) (req : Nat) (new old : Hdr
       intro x hx
       apply anc_inTree hw hn
       rw [hL.path]; exact List.mem_append_left _ (List.mem_reverse.mp (List.mem_of_mem_drop hx))
-    have hp1 := fun tip c' req' => connectBlocks_prefix ⟨s.tree, new.hash, fails2, hidden2⟩
+    have hp1 := fun tip c' req' => connectBlocks_prefix ⟨s.tree, new.hash, fails2, hidden2, bitcoin2⟩
       (d.connected.reverse.drop (fetchPrefix s req1 d.connected.reverse)) tip c' req'
-    have hfp := fun req' => fetchPrefix_healthy (s := ⟨s.tree, new.hash, fails2, hidden2⟩) hs2'
+    have hfp := fun req' => fetchPrefix_healthy (s := ⟨s.tree, new.hash, fails2, hidden2, bitcoin2⟩) hs2'
       (d.connected.reverse.drop (fetchPrefix s req1 d.connected.reverse)) req' hall
-    simp only [pollBestTip, hpoll, updateChainTip, synchronizeListener, e2, List.reverse_reverse, hp1, hfp,
+    simp only [pollBestTip, hpoll, updateChainTip, synchronizeListener, syncDisconnects, e2, List.reverse_reverse, hp1, hfp,
       beq_self_eq_true, if_true]
     simp
     apply List.take_of_length_le
@@ -417,8 +426,8 @@ theorem error_then_resume (s s2 : Source) (c : Cache) (req : Nat) (new old : Hdr
     have hj : fetchPrefix s req1 d.connected.reverse = d.connected.reverse.length := by
       have := fetchPrefix_le s d.connected.reverse req1; omega
     have htn : cl'.tip = new := by rw [htip]; exact (hk.2.2.1 hj).2
-    have hpoll : pollChainTip ⟨s.tree, new.hash, fails2, hidden2⟩ 0 new = .ok (.common, 1) := by
-      simp [pollChainTip, Source.getBestBlock, hf0]
+    have hpoll : pollChainTip ⟨s.tree, new.hash, fails2, hidden2, bitcoin2⟩ 0 new = .ok (.common, 1) := by
+      simp [pollChainTip, Source.getBestBlock, hf0, tipIsCommon]
     simp [pollBestTip, hpoll, htn, hj]
 
 example : (pollBestTip (exSrc 6 []) (updateChainTip (exSrc 6 [8]) ⟨b3, []⟩ 2 b6).1).notifs
@@ -481,7 +490,7 @@ theorem listeners_converge (s : Source) (pairs : List (Hdr × Locator)) (best : 
           refine ⟨?_, hbt, ?_, r2⟩
           · apply forall2_map_right _ q1
             intro bl p hp
-            obtain ⟨common, dconn, e1, hct, e3, e4, e5⟩ := hp
+            obtain ⟨common, dconn, e1, hct, e3, e4, e5, _, _⟩ := hp
             rw [e1]
             simp only
             rw [applyNotifs_append, e5]
@@ -500,5 +509,430 @@ example : LocatorOk exTree ⟨3, 2, [some 2, some 1]⟩ b3 := by
   intro d h x hm hx
   simp [Locator.candidates, prevCandidates] at hm
   rcases hm with ⟨_, rfl⟩ | ⟨_, rfl⟩ | ⟨_, rfl⟩ <;> (cases hx; decide)
+
+/-! ## per-listener shape of the start-up synchronisation -/
+
+/-- Strengthening of `listeners_converge`: after a successful `synchronize_listeners` the returned tip IS
+    the source's best block (`best.hash = s.best`), and every listener — wherever it was: on the best chain,
+    on a stale fork, on a fork whose blocks the source has forgotten (resolved through its `BlockLocator`
+    fallbacks) — received exactly: one `blocks_disconnected(common)` to a common ancestor `common` of its
+    own block and `best` (none if `common` is its own block), followed by the blocks of `best`'s chain above
+    `common` in ascending order, nothing else. -/
+theorem listeners_converge_shape (s : Source) (pairs : List (Hdr × Locator)) (best : Hdr) (cache : Cache)
+    (hw : wfTree s.tree = true) (hl : ∀ p ∈ pairs, LocatorOk s.tree p.2 p.1)
+    (h : (synchronizeListeners s (pairs.map (·.2))).result = .ok (best, cache)) :
+    best.hash = s.best ∧
+    Forall2 (fun p ns => ∃ common above, common ∈ anc s.tree p.1 ∧ anc s.tree best = above ++ anc s.tree common ∧
+        ns = (if common = p.1 then [] else [Notif.disconnected common.hash common.height]) ++ above.reverse.map connNotif ∧
+        above.reverse.Pairwise (fun a b => a.height < b.height))
+      pairs (synchronizeListeners s (pairs.map (·.2))).notifs := by
+  refine ⟨(listeners_converge s pairs best cache hw hl h).2.2.1, ?_⟩
+  unfold synchronizeListeners at h ⊢
+  cases hbb : s.getBestBlock 0 with
+  | error e => simp [hbb] at h
+  | ok bh =>
+    cases hgh : s.getHeader 1 bh with
+    | error e => simp [hbb, hgh] at h
+    | ok best' =>
+      have hhd := getHeader_ok hgh
+      have hbt : InTree s.tree best' := inTree_of_hdrOf hw hhd
+      simp only [hbb, hgh] at h ⊢
+      by_cases hok1 : (phase1 s best' (pairs.map (·.2)) [] 2 []).ok = true
+      · obtain ⟨q1, q2, q3⟩ := phase1_spec hw hbt pairs [] 2 [] hl (cacheOk_nil _) ⟨best', by simp⟩ hok1
+        obtain ⟨cm, hcm⟩ := q3
+        have hall : ∀ b ∈ (phase1 s best' (pairs.map (·.2)) [] 2 []).most.reverse, InTree s.tree b := by
+          intro b hb
+          apply anc_inTree hw hbt
+          rw [hcm]; exact List.mem_append_left _ (List.mem_reverse.mp hb)
+        obtain ⟨r1, r2⟩ := phase2_spec s (t := s.tree) MAX_BLOCKS_AT_ONCE (by decide) _ _
+          (phase1 s best' (pairs.map (·.2)) [] 2 []).cache (phase1 s best' (pairs.map (·.2)) [] 2 []).req
+          (Nat.le_refl _) q2 hall
+        simp only [hok1, Bool.not_true, Bool.false_eq_true, if_false] at h ⊢
+        generalize phase2 s MAX_BLOCKS_AT_ONCE (phase1 s best' (pairs.map (·.2)) [] 2 []).most.reverse.length
+          (phase1 s best' (pairs.map (·.2)) [] 2 []).most.reverse
+          (phase1 s best' (pairs.map (·.2)) [] 2 []).cache (phase1 s best' (pairs.map (·.2)) [] 2 []).req = p2 at *
+        rcases p2 with ⟨ok, c, r, delivered⟩
+        cases ok with
+        | false => simp at h
+        | true =>
+          simp only [if_true, Except.ok.injEq, Prod.mk.injEq] at h ⊢
+          obtain ⟨hb', hc'⟩ := h
+          subst hb' hc'
+          simp only at r1 r2
+          have hdel := r1 trivial
+          subst hdel
+          apply forall2_map_right _ q1
+          intro bl p hp
+          obtain ⟨common, dconn, e1, hct, e3, e4, _, e6, e7⟩ := hp
+          refine ⟨common, dconn, e6, e3, ?_, ?_⟩
+          · rw [e1]
+            simp only
+            rw [connectedFor_most hw hbt e3 hcm hct e4, e7]
+          · have hs := anc_sorted hw _ best' rfl hbt
+            rw [e3] at hs
+            exact List.pairwise_reverse.mpr (List.pairwise_append.mp hs).1
+      · simp [hok1] at h
+
+example : (synchronizeListeners (exSrc 6 []) [⟨3, 2, [some 2, some 1]⟩]).notifs =
+    [[.disconnected 1 0] ++ [b6, b5, b4].reverse.map connNotif] := by decide
+
+/-! ## headers that fail proof-of-work or do not connect are refused — for EVERY source behaviour -/
+
+/-- `BlockHeaderData::validate(hash)` (translated): whatever raw header a source answers, it becomes a
+    `ValidatedBlockHeader` only if its proof of work is valid AND it hashes to the REQUESTED hash; the
+    validated header then carries that hash (and the source's claimed height / chainwork). -/
+theorem validate_header_sound (raw : RawHdr) (h : Nat) (b : Hdr) (e : validateHeader raw h = some b) :
+    raw.powOk = true ∧ raw.hash = h ∧ b = raw.toHdr ∧ b.hash = h := by
+  unfold validateHeader at e
+  split at e
+  · cases e
+  · rename_i hp
+    split at e
+    · cases e
+    · rename_i hh
+      cases e
+      have hh' : raw.hash = h := by simpa [headerHashBad] using hh
+      exact ⟨by simpa using hp, hh', rfl, by simp [RawHdr.toHdr, hh']⟩
+
+/-- … conversely a header that fails PoW, or hashes to anything but the requested hash, is refused. -/
+theorem bad_header_refused (raw : RawHdr) (h : Nat) (hbad : raw.powOk = false ∨ raw.hash ≠ h) :
+    validateHeader raw h = none := by
+  cases hv : validateHeader raw h with
+  | none => rfl
+  | some b =>
+    obtain ⟨h1, h2, _, _⟩ := validate_header_sound raw h b hv
+    rcases hbad with hb | hb
+    · rw [h1] at hb; cases hb
+    · exact absurd h2 hb
+
+example : validateHeader ⟨5, 4, 2, 6, 7, 2, true⟩ 5 = some b5 ∧ validateHeader ⟨5, 4, 2, 6, 7, 2, false⟩ 5 = none ∧
+    validateHeader ⟨5, 4, 2, 6, 7, 2, true⟩ 6 = none := by decide
+
+/-- `BlockData::validate(hash)` (translated; the C20-b site): a block — full or header-only — is accepted
+    only with valid PoW and a header hashing to the requested hash, a full block only with a correct merkle
+    root and witness commitment. -/
+theorem validate_block_sound (raw : RawBlk) (h : Nat) (e : validateBlock raw h = true) :
+    raw.powOk = true ∧ raw.hash = h ∧ (raw.full = true → raw.merkleOk = true ∧ raw.witnessOk = true) := by
+  rcases raw with ⟨full, hash, pow, mk, wt⟩
+  unfold validateBlock at e
+  simp only [blockHashBad, blockMerkleBad, blockWitnessBad] at e
+  cases pow <;> cases full <;> cases mk <;> cases wt <;> simp_all
+
+example : validateBlock ⟨false, 5, true, true, true⟩ 5 = true ∧ validateBlock ⟨false, 4, true, true, true⟩ 5 = false ∧
+    validateBlock ⟨true, 5, true, false, true⟩ 5 = false := by decide
+
+/-- `check_builds_on` (translated, whole body): a header is accepted as building on `p` only if its
+    prev_blockhash is `p`'s hash, its height is `p`'s plus one and its chainwork is `p`'s plus the header's own
+    work; with Network::Bitcoin additionally the difficulty may change only at a multiple of 2016 and there
+    only within the 4x window. -/
+theorem check_builds_on_sound (net : Bool) (h p : Hdr) (e : checkBuildsOn net h p = true) :
+    h.parent = p.hash ∧ h.height = p.height + 1 ∧ h.work = p.work + h.bwork ∧
+    (net = true → if h.height % 2016 = 0
+      then minTransitionThreshold (targetOf p.bits) ≤ targetOf h.bits ∧ targetOf h.bits ≤ maxTransitionThresholdUnchecked (targetOf p.bits)
+      else h.bits = p.bits) := by
+  unfold checkBuildsOn checkBuildsOnErr at e
+  split at e
+  · simp at e
+  · rename_i h1
+    split at e
+    · simp at e
+    · rename_i h2
+      split at e
+      · simp at e
+      · rename_i h3
+        simp only [buildsOnBadPrevHash, buildsOnBadHeight, buildsOnBadChainwork, decide_eq_true_eq, ne_eq, Decidable.not_not] at h1 h2 h3
+        refine ⟨h1, h2, h3, ?_⟩
+        intro hn
+        subst hn
+        simp only [if_true] at e
+        split at e
+        · rename_i hr
+          have hr' : h.height % 2016 = 0 := by simpa [isRetargetHeight] using hr
+          simp only [hr', if_true]
+          split at e
+          · simp at e
+          · rename_i hb
+            simp only [badTransition, Bool.or_eq_true, decide_eq_true_eq, not_or, gt_iff_lt, Nat.not_lt] at hb
+            exact ⟨hb.2, hb.1⟩
+        · rename_i hr
+          have hr' : ¬ h.height % 2016 = 0 := by simpa [isRetargetHeight] using hr
+          simp only [hr', if_false]
+          split at e
+          · simp at e
+          · rename_i hb
+            simpa [badDifficulty] using hb
+
+example : checkBuildsOn false b5 b4 = true ∧ checkBuildsOn false b5 b3 = false ∧
+    checkBuildsOn false { b5 with height := 3 } b4 = false ∧ checkBuildsOn false { b5 with work := 7 } b4 = false ∧
+    checkBuildsOn true { b5 with bits := 8 } b4 = false := by decide
+
+/-- The trust boundary, closed for every previous-header look-up: let `h` be a block of the universe `t`
+    and let an ARBITRARY source answer the request for `h`'s predecessor with any raw header. If the answer
+    passes `validate(prev_blockhash)` and `check_builds_on` (i.e. `look_up_previous_header` returns it), then
+    it IS `t`'s header of the predecessor — including the claimed height and chainwork. (`hcf` = hashes are
+    collision-free: a header hashing to the predecessor's hash has the predecessor's contents.) So lying
+    about height / chainwork anywhere below a truthful tip is always refused. -/
+theorem prev_lookup_accepts_only_the_parent (t : Tree) (net : Bool) (h p0 p : Hdr) (raw : RawHdr)
+    (hw : wfTree t = true) (hh : InTree t h) (h0 : h.height ≠ 0) (hp0 : hdrOf t h.parent = some p0)
+    (hcf : raw.hash = p0.hash → raw.parent = p0.parent ∧ raw.bits = p0.bits ∧ raw.bwork = p0.bwork)
+    (hv : validateHeader raw h.parent = some p) (hb : checkBuildsOn net h p = true) : p = p0 := by
+  obtain ⟨_, v2, v3, _⟩ := validate_header_sound raw h.parent p hv
+  obtain ⟨c1, c2, c3, _⟩ := check_builds_on_sound net h p hb
+  obtain ⟨p', hp', hh1, _, _⟩ := parent_of hw hh h0
+  rw [hp0] at hp'; cases hp'
+  obtain ⟨hwk, _⟩ := parent_work hw hh h0 hp0
+  have hph : p0.hash = h.parent := (hdrOf_some hp0).2
+  obtain ⟨f1, f2, f3⟩ := hcf (by rw [v2, hph])
+  have a1 : p.hash = p0.hash := by rw [v3]; show raw.hash = p0.hash; rw [v2, hph]
+  have a2 : p.parent = p0.parent := by rw [v3]; exact f1
+  have a3 : p.height = p0.height := by omega
+  have a4 : p.work = p0.work := by omega
+  have a5 : p.bits = p0.bits := by rw [v3]; exact f2
+  have a6 : p.bwork = p0.bwork := by rw [v3]; exact f3
+  rcases p with ⟨⟩
+  rcases p0 with ⟨⟩
+  simp only at a1 a2 a3 a4 a5 a6
+  simp only [Hdr.mk.injEq]
+  exact ⟨a1, a2, a3, a4, a5, a6⟩
+
+/-- the Validate layer in front of an arbitrary source, seen as a failure schedule: a request of
+    `a.toSource t` is answered with `b` iff the raw answer passes the translated `validate(hash)` as `b`
+    and `b` is the universe's header for that hash -/
+theorem toSource_getHeader (a : Adv) (t : Tree) (k h : Nat) (b : Hdr) :
+    (a.toSource t).getHeader k h = .ok b ↔ a.getHeader k h = .ok b ∧ hdrOf t h = some b := by
+  unfold Source.getHeader Adv.toSource
+  simp only
+  cases hg : a.getHeader k h with
+  | error e => simp
+  | ok b' =>
+    cases ht : hdrOf t h with
+    | none => simp
+    | some b'' =>
+      by_cases hbb : b'' = b'
+      · subst hbb; simp
+      · have : ¬ b' = b'' := fun e => hbb e.symm
+        simp [hbb, this]
+        intro e1 e2; exact this (e1.trans e2.symm)
+
+/-- FIDELITY of `Adv.toSource`: for a source whose ACCEPTED answers carry true height / chainwork claims
+    (`a.TruthfulOn t`), the failure-scheduled view answers every header request exactly like the real
+    pipeline `get_header(..).validate(hash)` — nothing is assumed about refused answers, errors, order or
+    consistency between requests. -/
+theorem toSource_faithful (a : Adv) (t : Tree) (htr : a.TruthfulOn t) (k h : Nat) :
+    (a.toSource t).getHeader k h = a.getHeader k h := by
+  cases hg : a.getHeader k h with
+  | ok b => exact (toSource_getHeader a t k h b).mpr ⟨hg, htr.1 k h b hg⟩
+  | error e =>
+    have he : e = .source := by
+      unfold Adv.getHeader at hg
+      split at hg
+      · cases hg; rfl
+      · split at hg
+        · cases hg; rfl
+        · cases hg
+    subst he
+    unfold Source.getHeader Adv.toSource
+    simp [hg]
+
+/-- a `connected` notification of any operation comes from `connect_blocks`, after a successful
+    `fetch_block` of exactly that header -/
+theorem connectBlocks_connected (s : Source) : ∀ (bs : List Hdr) (tip : Hdr) (c : Cache) (req : Nat) (h ht : Nat),
+    Notif.connected h ht ∈ (connectBlocks s bs tip c req).notifs →
+    ∃ k b, b.hash = h ∧ b.height = ht ∧ s.getBlock k b = .ok () := by
+  intro bs
+  induction bs with
+  | nil => intro tip c req h ht hm; simp [connectBlocks] at hm
+  | cons b rest ih =>
+    intro tip c req h ht hm
+    unfold connectBlocks at hm
+    cases hg : s.getBlock req b with
+    | error e => simp [hg] at hm
+    | ok u =>
+      simp only [hg] at hm
+      rcases List.mem_cons.mp hm with e | hm'
+      · cases e; exact ⟨req, b, rfl, rfl, hg⟩
+      · exact ih _ _ _ _ _ hm'
+
+/-- "Headers that fail proof-of-work or do not connect are refused", end to end and for EVERY source
+    behaviour (`a : Adv` is an arbitrary function from requests to raw answers): every block a poll hands to
+    the listener (`block_connected` / `filtered_block_connected` of hash `h` at height `ht`) was answered by
+    the source to a request for exactly that hash and passed the translated `BlockData::validate` — valid
+    PoW, header hash = requested hash, for a full block correct merkle root and witness commitment — and is
+    the universe's block `h`, a child of the listener's previous tip at height + 1
+    (`notifications_single_chain_adversarial`). A block whose hash differs from the requested one, or with
+    invalid PoW, therefore never reaches a listener. -/
+theorem only_validated_blocks_reach_the_listener (a : Adv) (t : Tree) (cl : Client) (h ht : Nat)
+    (hm : Notif.connected h ht ∈ (pollBestTip (a.toSource t) cl).notifs) :
+    ∃ k raw, a.block k h = some raw ∧ validateBlock raw h = true ∧ raw.powOk = true ∧ raw.hash = h := by
+  have key : ∃ k b, b.hash = h ∧ b.height = ht ∧ (a.toSource t).getBlock k b = .ok () := by
+    unfold pollBestTip at hm
+    split at hm
+    · simp at hm
+    · simp at hm
+    · simp at hm
+    · rename_i tp req hp
+      simp only [updateChainTip] at hm
+      have hsync : Notif.connected h ht ∈ (synchronizeListener (a.toSource t) cl.cache req tp cl.tip).notifs := by
+        generalize synchronizeListener (a.toSource t) cl.cache req tp cl.tip = o at hm
+        cases hr : o.res <;> simp only [hr] at hm
+        · exact hm
+        · exact hm
+        · split at hm <;> exact hm
+      unfold synchronizeListener at hsync
+      split at hsync
+      · simp at hsync
+      · rename_i d req1 _
+        simp only at hsync
+        rcases List.mem_append.mp hsync with h1 | h2
+        · split at h1 <;> simp at h1
+        · exact connectBlocks_connected _ _ _ _ _ _ _ h2
+  obtain ⟨k, b, hbh, _, hg⟩ := key
+  subst hbh
+  unfold Source.getBlock Adv.toSource at hg
+  simp only at hg
+  cases hgb : a.getBlock k b.hash with
+  | error e => simp [hgb] at hg
+  | ok u =>
+    unfold Adv.getBlock at hgb
+    cases hr : a.block k b.hash with
+    | none => simp [hr] at hgb
+    | some raw =>
+      simp only [hr] at hgb
+      split at hgb
+      · rename_i hv
+        obtain ⟨v1, v2, _⟩ := validate_block_sound raw b.hash hv
+        exact ⟨k, raw, hr, hv, v1, v2⟩
+      · cases hgb
+
+/-- `notifications_single_chain` under an ADVERSARIAL source: let the client be polled any number of
+    times against ARBITRARY sources (each `a ∈ advs` any function from requests to raw answers — wrong
+    blocks, invalid PoW, unrelated headers, errors, inconsistent answers between requests), seen through the
+    translated Validate layer over the universe `t` of headers that exist. Whatever they answer, the
+    listener-visible sequence is one valid chain of `t`: every `connected` block is a child of the tip
+    before it at height + 1, every `disconnected` goes to a proper ancestor, and the result is the chain of
+    the client's `chain_tip`. (Trust boundary: an accepted header whose CLAIMED height / chainwork are untrue
+    is treated as refused by `Adv.toSource`; `prev_lookup_accepts_only_the_parent` proves the real code does
+    refuse it at every previous-header look-up, `toSource_faithful` that nothing else is assumed. For the tip
+    header and locator look-ups the real code trusts the claims — see the candidate finding in DESIGN 9.1.) -/
+theorem notifications_single_chain_adversarial (t : Tree) (cl : Client) (advs : List Adv)
+    (hw : wfTree t = true) (hc : CacheOk t cl.cache) (ht : InTree t cl.tip) :
+    applyNotifs t (anc t cl.tip) (runPolls cl (advs.map (·.toSource t))).2
+      = some (anc t (runPolls cl (advs.map (·.toSource t))).1.tip) :=
+  notifications_single_chain t cl _ hw
+    (by intro s hs; obtain ⟨a, _, rfl⟩ := List.mem_map.mp hs; rfl) hc ht
+
+/-- an adversary over `exTree`: asked for the tip 6 it first serves block 5's header (wrong hash), on the
+    next poll a header failing PoW, then the truth but block 4's data for block 5; the listener only ever
+    sees the chain 1 ← 4 ← 5 ← 6 -/
+def exAdv (hdrLie : Nat → Nat → Option RawHdr) (blkLie : Nat → Nat → Option RawBlk) : Adv :=
+  { best := fun _ => some 6,
+    header := fun k h => match hdrLie k h with
+      | some r => some r
+      | none => (hdrOf exTree h).map (fun b => ⟨b.hash, b.parent, b.height, b.work, b.bits, b.bwork, true⟩),
+    block := fun k h => match blkLie k h with
+      | some r => some r
+      | none => some ⟨false, h, true, true, true⟩ }
+example : (runPolls ⟨b1, []⟩ [
+      (exAdv (fun k _ => if k = 1 then some ⟨5, 4, 2, 6, 7, 2, true⟩ else none) (fun _ _ => none)).toSource exTree,
+      (exAdv (fun k _ => if k = 1 then some ⟨6, 5, 3, 8, 7, 2, false⟩ else none) (fun _ _ => none)).toSource exTree,
+      (exAdv (fun _ _ => none) (fun k _ => if k = 6 then some ⟨false, 4, true, true, true⟩ else none)).toSource exTree,
+      (exAdv (fun _ _ => none) (fun _ _ => none)).toSource exTree]).2
+    = [.connected 4 1, .connected 5 2, .connected 6 3] := by decide
+
+/-! ## exactly when the tip work decreases (KF-C20-1 as a theorem) -/
+
+/-- EXACT characterisation of the triples (tree, client state, source behaviour) in which a poll lowers
+    the work of `chain_tip` (and of the listeners' tip, which is the same block by
+    `notifications_single_chain_poll`): the poll saw a Better tip `b`, the walk found the difference `d`,
+    and the connects were interrupted — `j` = number of block fetches that succeeded — at a block
+    (`d.common` itself if `j = 0`) that still has less work than the old tip. That is: a REORG
+    (`d.common ≠ old tip`, so `blocks_disconnected` was delivered) whose first failing fetch falls after the
+    disconnection and before the new branch has caught up with the old tip's work. In every other case —
+    no failure, failure before the disconnection (during the walk), failure after catching up, pure
+    extension, Worse / Common / error — the tip work does not decrease. -/
+theorem tip_work_decreases_iff (s : Source) (cl : Client)
+    (hw : wfTree s.tree = true) (hc : CacheOk s.tree cl.cache) (ht : InTree s.tree cl.tip) :
+    (pollBestTip s cl).client.tip.work < cl.tip.work ↔
+    ∃ b req d req1, pollChainTip s 0 cl.tip = .ok (.better b, req) ∧
+      findDiff s cl.cache b cl.tip req = .ok (d, req1) ∧
+      d.common ≠ cl.tip ∧
+      fetchPrefix s req1 d.connected.reverse < d.connected.length ∧
+      (pollBestTip s cl).client.tip = lastOr d.common (d.connected.reverse.take (fetchPrefix s req1 d.connected.reverse)) ∧
+      (lastOr d.common (d.connected.reverse.take (fetchPrefix s req1 d.connected.reverse))).work < cl.tip.work := by
+  constructor
+  · intro hlt
+    cases hp : pollChainTip s 0 cl.tip with
+    | error e =>
+      rcases e with ⟨e, r⟩
+      simp [pollBestTip, hp] at hlt
+    | ok v =>
+      rcases v with ⟨k, req⟩
+      cases k with
+      | common => simp [pollBestTip, hp] at hlt
+      | worse w => simp [pollBestTip, hp] at hlt
+      | better b =>
+        obtain ⟨hbt, hwk⟩ := pollChainTip_better hw hp
+        have hcl : (pollBestTip s cl).client = (updateChainTip s cl req b).1 := by
+          simp [pollBestTip, hp]
+        cases hfd : findDiff s cl.cache b cl.tip req with
+        | error e =>
+          rcases e with ⟨e, r⟩
+          have : (updateChainTip s cl req b).1.tip = cl.tip := by
+            simp [updateChainTip, synchronizeListener, hfd]
+          rw [hcl, this] at hlt; omega
+        | ok v =>
+          rcases v with ⟨d, req1⟩
+          have hk := error_keeps_prefix s cl.cache req b cl.tip d req1 hw hc hbt ht hfd _ rfl _ rfl _ rfl
+          have htip : (pollBestTip s cl).client.tip
+              = lastOr d.common (d.connected.reverse.take (fetchPrefix s req1 d.connected.reverse)) := by
+            rw [hcl]; exact hk.2.2.2.1
+          rw [htip] at hlt
+          refine ⟨b, req, d, req1, rfl, hfd, ?_, ?_, htip, hlt⟩
+          · -- pure extension never loses work
+            intro hd
+            have hL := findDiff_spec hw hc hbt ht hfd
+            obtain ⟨_, k2⟩ := anc_lastOr hw (common := d.common) hbt
+              (d.connected.reverse.take (fetchPrefix s req1 d.connected.reverse))
+              (d.connected.reverse.drop (fetchPrefix s req1 d.connected.reverse))
+              (by rw [List.take_append_drop]; simp [hL.path])
+            have hin : InTree s.tree (lastOr d.common (d.connected.reverse.take (fetchPrefix s req1 d.connected.reverse))) := by
+              rw [← htip]; exact (notifications_single_chain_poll s cl hw hc ht).2.1
+            by_cases hnil : (d.connected.reverse.take (fetchPrefix s req1 d.connected.reverse)).reverse = []
+            · have : d.connected.reverse.take (fetchPrefix s req1 d.connected.reverse) = [] := by simpa using hnil
+              rw [this, lastOr, hd] at hlt; omega
+            · have := anc_work_lt hw _ _ hin k2 hnil
+              have hdw : d.common.work = cl.tip.work := by rw [hd]
+              omega
+          · -- all fetched: the tip is `b`, which has more work
+            have hle := fetchPrefix_le s d.connected.reverse req1
+            simp only [List.length_reverse] at hle
+            rcases Nat.lt_or_ge (fetchPrefix s req1 d.connected.reverse) d.connected.length with h | h
+            · exact h
+            · have heq : fetchPrefix s req1 d.connected.reverse = d.connected.reverse.length := by
+                simp only [List.length_reverse]; omega
+              have := (hk.2.2.1 heq).2
+              rw [this] at hlt; omega
+  · rintro ⟨b, req, d, req1, _, _, _, _, htip, hlt⟩
+    rw [htip]; exact hlt
+
+/-- consequence: unless the poll is such an interrupted reorg, the tip work never decreases — without any
+    hypothesis on the source (compare `tip_only_improves_partial`, which needs a healthy source to conclude
+    that the Better tip is reached) -/
+theorem tip_only_improves (s : Source) (cl : Client)
+    (hw : wfTree s.tree = true) (hc : CacheOk s.tree cl.cache) (ht : InTree s.tree cl.tip)
+    (hno : ¬ ∃ b req d req1, pollChainTip s 0 cl.tip = .ok (.better b, req) ∧
+      findDiff s cl.cache b cl.tip req = .ok (d, req1) ∧ d.common ≠ cl.tip ∧
+      fetchPrefix s req1 d.connected.reverse < d.connected.length) :
+    cl.tip.work ≤ (pollBestTip s cl).client.tip.work := by
+  rcases Nat.lt_or_ge (pollBestTip s cl).client.tip.work cl.tip.work with h | h
+  · obtain ⟨b, req, d, req1, h1, h2, h3, h4, _, _⟩ := (tip_work_decreases_iff s cl hw hc ht).mp h
+    exact absurd ⟨b, req, d, req1, h1, h2, h3, h4⟩ hno
+  · exact h
+
+-- the witness of the characterisation on `interrupted_reorg_example`, and a failure AFTER catching up (request 9:
+-- blocks 4 and 5 delivered, work 6 = old work) that does not lower the tip
+example : (pollBestTip (exSrc 6 [7]) ⟨b3, []⟩).client.tip.work < b3.work := by decide
+example : ¬ (pollBestTip (exSrc 6 [9]) ⟨b3, []⟩).client.tip.work < b3.work := by decide
+example : ¬ (pollBestTip (exSrc 6 [4]) ⟨b3, []⟩).client.tip.work < b3.work := by decide  -- failure during the walk
 
 end Ldk.C20
